@@ -26,7 +26,7 @@ ASSUMPTIONS = [
     "(alphabetically first (module, name) bound to the same object, type, __module__, __qualname__)",
     "first-imports and ordered pairs are exhaustive; longer orders are sampled",
 ]
-FORMS = ["import", "importlib", "from_pkg", "from_mod"]
+FORMS = ["import", "importlib", "from_pkg", "from_mod", "star"]
 CHILD = os.path.join(env.VERIF, "vmon", "c20_child.py")
 
 
@@ -40,7 +40,8 @@ def exhaustive(tier):
 
 
 def required(tier):
-    return ["first_import", "ordered_pair", "longer_order", "started_with_python_-c", "started_as_script_file"] + \
+    return ["first_import", "ordered_pair", "longer_order", "started_with_python_-c", "started_as_script_file",
+            "loaded_modules_used_between_the_imports", "form:star"] + \
         ["options:" + " ".join(f) for f in FLAGSETS]
 
 
@@ -80,14 +81,15 @@ def shards(tier, seed):
 _SRC = None
 
 
-def run_child(steps, mods, timeout=120, dash_c=True, pyflags=()):
+def run_child(steps, mods, timeout=120, dash_c=True, pyflags=(), use_between=False):
     # `python -c <program>`: the interpreter has no main FILE (no __main__.__file__), exactly like `python -c 'import chartparse.x'`;
     # every fourth-or-so order is also run as a script file
     global _SRC
     if _SRC is None:
         _SRC = open(CHILD).read()
     head = [env.PY, "-X", "faulthandler", *[f for f in pyflags if not f.startswith("+")]] + (["-c", _SRC] if dash_c else [CHILD])
-    p = subprocess.run(head + [env.REPO, json.dumps({"steps": steps, "modules": mods, "ambient": [f[1:] for f in pyflags if f.startswith("+")]})],
+    p = subprocess.run(head + [env.REPO, json.dumps({"steps": steps, "modules": mods, "use_between": use_between,
+                                                            "ambient": [f[1:] for f in pyflags if f.startswith("+")]})],
                        capture_output=True, text=True, timeout=timeout,
                        env={"PYTHONHASHSEED": "0", "PYTHONDONTWRITEBYTECODE": "1", "PATH": os.environ.get("PATH", "")},
                        cwd="/")
@@ -121,8 +123,11 @@ def judge(order, idx, mods, ref, rec, pyflags=()):
                 form = "import"
         steps.append([form, m, name])
     dash_c = idx % 4 != 3
-    out = run_child(steps, mods, dash_c=dash_c, pyflags=pyflags)
-    case = {"steps": steps, "modules": mods, "dash_c": dash_c, "pyflags": list(pyflags)}
+    use_between = len(order) >= 2 and idx % 3 == 1
+    out = run_child(steps, mods, dash_c=dash_c, pyflags=pyflags, use_between=use_between)
+    case = {"steps": steps, "modules": mods, "dash_c": dash_c, "pyflags": list(pyflags), "use_between": use_between}
+    if use_between:
+        rec.cls("loaded_modules_used_between_the_imports")
     rec.cls("started_with_python_-c" if dash_c else "started_as_script_file")
     rec.cls("options:" + (" ".join(pyflags) or "default"))
     rec.ev()
@@ -152,6 +157,15 @@ def judge(order, idx, mods, ref, rec, pyflags=()):
             k0 = sorted(bad)[0]
             rec.violation("use-after-partial-import", f"after steps {steps} (modules loaded: {out['exec_order']}) the {k0} entry point answers {bad[k0][1]!r}; "
                           f"with the whole package loaded it answers {bad[k0][0]!r}", case, "loaded-module-unusable-without-siblings")
+            return
+    if ref and ref.get("used_final") and out.get("used_final"):
+        bad = {k: (ref["used_final"].get(k), v) for k, v in out["used_final"].items() if ref["used_final"].get(k) != v}
+        rec.ev()
+        if bad:
+            k0 = sorted(bad)[0]
+            rec.violation("use-after-imports", f"after steps {steps}{' (with the loaded modules used between the imports)' if use_between else ''} and then "
+                          f"loading the rest of the package, the {k0} entry point answers {bad[k0][1]!r}; in the reference interpreter it answers "
+                          f"{bad[k0][0]!r}", case, "package-unusable-after-this-import-order")
             return
     if ref and ref.get("snapshot") and out["snapshot"] != ref["snapshot"]:
         diffs = []
@@ -192,7 +206,7 @@ def replay(case, rec):
     ref = reference(mods, fl)
     if ref.get("crashed") or ref.get("failed"):
         ref = None
-    out = run_child(case["steps"], mods, dash_c=case.get("dash_c", True), pyflags=fl)
+    out = run_child(case["steps"], mods, dash_c=case.get("dash_c", True), pyflags=fl, use_between=case.get("use_between", False))
     rec.ev()
     if out.get("crashed"):
         rec.violation("interpreter-crashed", str(out), case, "import-crash")
@@ -202,6 +216,9 @@ def replay(case, rec):
                       case, "import-fails")
     elif ref and out["snapshot"] != ref["snapshot"]:
         rec.violation("snapshot-differs", "public names differ from the reference order", case)
+    elif ref and (out.get("used_final") != ref.get("used_final") or
+                  any(ref["used"].get(k) != v for k, v in (out.get("used") or {}).items() if k in (ref.get("used") or {}))):
+        rec.violation("use-after-imports", "the loaded package answers differently from the reference interpreter", case)
 
 
 def finalize(agg, tier):
